@@ -103,6 +103,33 @@ def cases(rng, tier):
             b, _ = dns.encode_marked(q, rng, 0)
             toks += ["D"] + dns.name_toks(SVC) + dns.name_toks(ME) + [b.hex()]
     out.append("STORE " + " ".join(toks))
+    # a long history: thousands of distinct peers announced to one discoverer over many full-size datagrams (the store grows past
+    # every power of two up to 8192 names), then queries and more traffic: nothing in the handling may depend on how much is cached
+    for total in ((4200,) if tier == "quick" else (1100, 4200, 8300)):
+        toks = ["AA"] + dns.rr_toks({"name": SVC, "class": 1, "ttl": 120, "cf": False, "rdata": ("T", "PTR", [("N", ME)])})
+        svcw = b"".join(bytes([len(l)]) + l for l in SVC) + b"\x00"
+        n = 0
+        while n < total:
+            body = bytearray()
+            cnt = 0
+            svc_at = None
+            while n < total and len(body) < 8900:
+                lab = b"p%05d" % n
+                if svc_at is None:
+                    svc_at = 12 + len(body) + 1 + len(lab)
+                    name = bytes([len(lab)]) + lab + svcw
+                else:
+                    name = bytes([len(lab)]) + lab + bytes([0xC0 | (svc_at >> 8), svc_at & 0xFF])
+                body += name + b"\x00\x01\x00\x01\x00\x00\x11\x94\x00\x04" + (0x0a000000 + n).to_bytes(4, "big")
+                cnt += 1
+                n += 1
+            d = b"\x00\x00\x84\x00\x00\x00" + cnt.to_bytes(2, "big") + b"\x00\x00\x00\x00" + bytes(body)
+            toks += ["D"] + dns.name_toks(SVC) + dns.name_toks(ME) + [d.hex()]
+        q = pC13.query_pkt(5, [{"name": SVC, "qtype": 12, "qclass": 1, "uni": False}])
+        b, _ = dns.encode_marked(q, rng, 0)
+        toks += ["D"] + dns.name_toks(SVC) + dns.name_toks(ME) + [b.hex()]
+        toks += ["K"] + dns.name_toks(SVC)
+        out.append("STORE " + " ".join(toks))
     # replies larger than 16 KiB: a store of address records under one service whose sorted order puts a two-new-label name
     # at offset 16384 - k, followed by a name sharing only its later suffix
     base = [b"_s", b"_tcp", b"local"]
